@@ -391,7 +391,15 @@ def _run_callgraph(case, ctx, res) -> None:  # noqa: ANN001
                     children: Dict[int, List[int]] = {}
                     for c, p in parent.items():
                         children.setdefault(p, []).append(c)
+                    n_before = len(res.violations)
                     judge(rows, parent, depth, children, f"CallGraph[{which}] rank {r} thread {key} (parent/depth columns)", res)
+                    # known finding K4: attribution data for its classifier (the thread's (pid, tid) pair is also that of device
+                    # records on a stream, and this is the builder behind critical-path analysis)
+                    clash = any(e.stream > 0 and (e.pid, e.tid) == key for e in models[r])
+                    if clash:
+                        res.counters[f"host_threads_sharing_pid_tid_with_a_device_stream_{which}"] += 1
+                    for v_ in res.violations[n_before:]:
+                        v_.witness.update(shares_pid_tid_with_device_stream=clash, old_builder=(which == "old"))
                     ids = {i for i, _, _ in rows}
                     for label, nodes in node_maps:
                         if "get_call_stacks" in label and not (ids & set(nodes)) and f"/{key[1]}" not in label:
